@@ -26,7 +26,7 @@ C14_keyword_table C14_operator_table C14_single_table C14_op_classes C14_escape_
 C14_decode_is_lossy C14_decode_no_panic C14_decode_scalar C14_lossy_encode
 C14_lex_tiles C14_lex_filter C14_lex_error_located C14_fuel_sufficient C14_lex_no_panic C14_lex_total
 C14_operator_maximal_munch C14_munch_example
-C14_verbatim_string_value C14_quoted_string_value C14_textblock_value C14_textblock_spec_examples C14_number_value C14_number_digits_value C14_number_strict_sub C14_number_underscore_deviation C14_number_spec_examples C14_number_value_partial C14_surrogate_pairs C14_surrogate_pairs_onto C14_quoted_spec_example
+C14_verbatim_string_value C14_quoted_string_value C14_textblock_value C14_textblock_spec_examples C14_number_value C14_number_digits_value C14_number_denotes C14_number_strict_sub C14_number_underscore_deviation C14_number_spec_examples C14_number_value_partial C14_surrogate_pairs C14_surrogate_pairs_onto C14_quoted_spec_example
 C14_nonvacuous
 '''.split()
 THEOREMS = THEOREM_LIST
